@@ -26,6 +26,14 @@ func (o *Operations) Delete(name string) error {
 		return err
 	}
 
+	// Free the drive if we return before the writer has been closed
+	writerOpen := true
+	defer func() {
+		if writerOpen {
+			_ = o.backend.CloseWriter()
+		}
+	}()
+
 	dirty := false
 	tw, cleanup, err := tarext.NewTapeWriter(writer.Drive, writer.DriveIsRegular, o.pipes.RecordSize)
 	if err != nil {
@@ -107,6 +115,7 @@ func (o *Operations) Delete(name string) error {
 		return err
 	}
 
+	writerOpen = false
 	if err := o.backend.CloseWriter(); err != nil {
 		return err
 	}
